@@ -1,7 +1,7 @@
 SPECIFICATION Spec
 CONSTANTS
-  Callers = {"a","b","c","d"}
-  TwoWrites = {"a"}
+  Callers = {"a","b","c"}
+  TwoWrites = {"a","b"}
   AtomicNextId = TRUE
   SendLock = TRUE
   DeleteOnGet = TRUE
@@ -9,10 +9,10 @@ CONSTANTS
   RefuseAfterClosed = TRUE
   SendErrDelivered = TRUE
   AllowRdFail = TRUE
-  AllowWrFail = FALSE
-  AllowCancel = TRUE
+  AllowWrFail = TRUE
+  AllowCancel = FALSE
   ChanCap1 = TRUE
-  SendErrToRegistered = TRUE
+  SendErrToRegistered = FALSE
   KeepSlotOnCancel = TRUE
-INVARIANTS Inv_C03_OwnReply Inv_C03_DistinctIds Inv_C03_Framing Inv_C04_NotifiedOnce Inv_C03_NoSpuriousTeardown
+INVARIANTS Inv_C03_OwnReply Inv_C03_DistinctIds Inv_C03_Framing Inv_C04_NotifiedOnce
 CHECK_DEADLOCK TRUE
